@@ -235,7 +235,8 @@ def effects(fa, rename=None, keep_calls=True, drop_guards=(), callsites=None):
             if any((d(c) if callable(d) else T.contains(c, d)) for d in drop_guards):
                 continue
             g = r(c) if pol else T.not_(r(c))
-            flag = 'r' if raw in ('raise', 'if:raise') else True
+            # 'r': what an earlier refusal leaves behind on the path; 'ri': the test of a conditional one of whose arms refuses
+            flag = 'r' if raw == 'raise' else ('ri' if raw == 'if:raise' else True)
             # `if a and b:` and `if a: if b:` give the same guards
             gl.extend((x, flag) for x in (g[1] if g[0] == 'and' else [g]))
         gs = frozenset(gl)
@@ -299,14 +300,19 @@ def _first_diff(a, b, depth=0):
 
 
 def _go_on(gs):
-    return frozenset(x for x in gs if x[1] != 'r')
+    return frozenset(x for x in gs if x[1] not in ('r', 'ri'))
+
+
+def _own(gs):
+    """The conditions of a refusal itself: everything except what earlier refusals left behind on the path."""
+    return frozenset((c, True) for c, f in gs if f != 'r')
 
 
 def _show_effect(p, gs):
     parts = []
     for x in p[1:]:
         parts.append(_sh(x) if isinstance(x, tuple) else str(x))
-    g = ' & '.join(sorted(_sh(c) for c, pol in gs if pol != 'r'))
+    g = ' & '.join(sorted(_sh(c) for c, pol in gs if pol != 'r'))       # (for a refusal its own tests are shown)
     s = f'{p[0]} ' + ' , '.join(parts)
     return s + (f'   [when {g}]' if g else '')
 
@@ -366,7 +372,11 @@ def compare(ctx, rule, fa, ref_source, module=None, known=(), ignore=None, why='
     for p, gs, e in got:
         hit = None
         for i, (q, hs, _) in enumerate(remaining):
-            if p == q and _go_on(gs) == _go_on(hs):
+            # a refusal is matched under its complete condition (which refusal fires is behaviour: two adjacent
+            # `raise`s with swapped tests must not pair up); every other effect under the conditions that let the
+            # function go on.  Refusals that differ only in the order of independent tests meet again in the
+            # case-split comparison below.
+            if p == q and ((_own(gs) == _own(hs)) if p[0] == 'raise' else (_go_on(gs) == _go_on(hs))):
                 hit = i
                 break
         if hit is None:
